@@ -390,9 +390,10 @@ impl<'a> P<'a> {
                         Last::Closed => break,
                     },
                     Tok::Num { .. } | Tok::ImagUnit => match last {
-                        Last::Lit | Last::ImagUnit => {
-                            return Err(PErr::Unspecified("U1: literal directly followed by a literal"))
-                        }
+                        // a literal (or the unit i) directly followed by a literal: C12 lists it neither among the products
+                        // (a literal is followed by a bracket or a function name) nor can a constant continue one — not an
+                        // expression, whichever way `i` is read
+                        Last::Lit | Last::ImagUnit => return Err(PErr::Malformed(self.pos)),
                         Last::Group | Last::Call | Last::Fact => {
                             if t == Tok::ImagUnit {
                                 return Err(PErr::Unspecified("U1: bare i juxtaposed"));
@@ -519,7 +520,7 @@ mod tests {
         assert_eq!(s(Ev::F64, "pow(1)"), "MAL@3");
         assert_eq!(s(Ev::F64, "min()"), "MAL@2");
         assert_eq!(s(Ev::F64, "avg()"), "Avg()");
-        assert_eq!(s(Ev::F64, "1.2.3"), "UNSPEC U1: literal directly followed by a literal");
+        assert_eq!(s(Ev::F64, "1.2.3"), "MAL@1");
         assert_eq!(s(Ev::I64, "1|2&3<<4+5"), "(1|(2&(3<<(4+5))))");
         assert_eq!(s(Ev::I64, "pi"), "MAL@0");
         assert_eq!(s(Ev::Cpx, "2!"), "MAL@1");
